@@ -17,6 +17,14 @@ theorem markComponent_core (r : Roadmap S D) (v c : Nat) :
       (markComponent r v c).vflag = r.vflag ∧ (markComponent r v c).edges = r.edges ∧
       (markComponent r v c).nn = r.nn := ⟨rfl, rfl, rfl, rfl, rfl⟩
 
+theorem checkSame_core (r : Roadmap S D) :
+    (checkSame r).states = r.states ∧ (checkSame r).alive = r.alive ∧ (checkSame r).vflag = r.vflag ∧
+      (checkSame r).edges = r.edges ∧ (checkSame r).nn = r.nn := ⟨rfl, rfl, rfl, rfl, rfl⟩
+
+theorem checkNone_core (r : Roadmap S D) (c : Nat) :
+    (checkNone r c).states = r.states ∧ (checkNone r c).alive = r.alive ∧ (checkNone r c).vflag = r.vflag ∧
+      (checkNone r c).edges = r.edges ∧ (checkNone r c).nn = r.nn := ⟨rfl, rfl, rfl, rfl, rfl⟩
+
 theorem uniteComponents_core (r : Roadmap S D) (a b : Nat) :
     (uniteComponents r a b).states = r.states ∧ (uniteComponents r a b).alive = r.alive ∧
       (uniteComponents r a b).vflag = r.vflag ∧ (uniteComponents r a b).edges = r.edges ∧
@@ -25,7 +33,7 @@ theorem uniteComponents_core (r : Roadmap S D) (a b : Nat) :
   simp only
   split
   · exact ⟨rfl, rfl, rfl, rfl, rfl⟩
-  · split <;> exact markComponent_core _ _ _
+  · split <;> exact ⟨rfl, rfl, rfl, rfl, rfl⟩
 
 theorem relabelNeighbours_core (c0 : Nat) (l : List Nat) :
     ∀ r : Roadmap S D, (relabelNeighbours c0 l r).states = r.states ∧ (relabelNeighbours c0 l r).alive = r.alive ∧
@@ -37,7 +45,7 @@ theorem relabelNeighbours_core (c0 : Nat) (l : List Nat) :
     intro r
     simp only [relabelNeighbours]
     split
-    · obtain ⟨a, b, c, d, e⟩ := ih (markComponent (freshComp r) n r.compCount)
+    · obtain ⟨a, b, c, d, e⟩ := ih (checkSame (markComponent (freshComp r) n r.compCount))
       exact ⟨a, b, c, d, e⟩
     · exact ih r
 
@@ -150,17 +158,17 @@ theorem connectAll_spec (cfg : Cfg S D) (m : Nat) (s : S) (l : List Nat) :
     intro r h hm hl
     simp only [connectAll]
     split
-    · generalize hr1 : ({ r with edges := r.edges ++ [⟨m, n, cfg.cost s (r.states[n]?.getD s), false⟩] } : Roadmap S D) = r1
+    · generalize hr1 : addEdge r m n (cfg.cost s (r.states[n]?.getD s)) = r1
       have h1 : RInv cfg r1 := by
         subst hr1
         refine ⟨h.sizeA, h.sizeF, ?_, h.nnAlive, h.vflagSound, ?_⟩
         · intro e he
-          simp only [List.mem_append, List.mem_singleton] at he
+          simp only [addEdge, List.mem_append, List.mem_singleton] at he
           rcases he with he | rfl
           · exact h.edgeAlive e he
           · exact ⟨hm, hl n (by simp)⟩
         · intro e he hf
-          simp only [List.mem_append, List.mem_singleton] at he
+          simp only [addEdge, List.mem_append, List.mem_singleton] at he
           rcases he with he | rfl
           · exact h.eflagSound e he hf
           · simp at hf
@@ -373,15 +381,17 @@ theorem removeVertices_spec (cfg : Cfg S D) (r : Roadmap S D) (start : Nat) (rm 
       rw [hc.1] at ha hb
       exact h.eflagSound e he.1 hf a b ha hb
   obtain ⟨k1, k2, k3, k4, k5⟩ := relabelNeighbours_core (compOf r start) (formerNeighbours r rm) r1
-  refine ⟨rinv_of_core cfg r1 _ h1 k1 k2 k3 k4 k5, ?_, ?_, by rw [k3, hc.2.1]⟩
-  · refine ⟨fun v s hs => by rw [k1, hc.1]; exact hs, fun v _ hd => ?_⟩
-    unfold isAlive; rw [k2]
+  refine ⟨rinv_of_core cfg r1 _ h1 k1 k2 k3 k4 k5, ?_, ?_, by show (relabelNeighbours _ _ r1).vflag = _; rw [k3, hc.2.1]⟩
+  · refine ⟨fun v s hs => by show (relabelNeighbours _ _ r1).states[v]? = _; rw [k1, hc.1]; exact hs, fun v _ hd => ?_⟩
+    show (relabelNeighbours _ _ r1).alive[v]?.getD false = false
+    rw [k2]
     have := hal v
     unfold isAlive at this hd
     rw [this, hd]; rfl
   · intro v
     have := hal v
     unfold isAlive at this ⊢
+    show (relabelNeighbours _ _ r1).alive[v]?.getD false = _
     rw [k2]; exact this
 
 /-! ### constructSolution: the edge phase -/
@@ -461,8 +471,7 @@ theorem checkEdges_spec (cfg : Cfg S D) (pairs : List (Nat × Nat)) :
         · intro e he hf a b ha hb
           simp only [dropEdge, List.mem_filter] at he
           exact h.eflagSound e he.1 hf a b ha hb
-      obtain ⟨m1, m2, m3, m4, m5⟩ := markComponent_core (freshComp (dropEdge r pos prevV)) pos (dropEdge r pos prevV).compCount
-      refine ⟨rinv_of_core cfg (dropEdge r pos prevV) _ hd m1 m2 m3 m4 m5, m1, m2, m3, fun hf => by simp at hf⟩
+      refine ⟨rinv_of_core cfg (dropEdge r pos prevV) _ hd rfl rfl rfl rfl rfl, rfl, rfl, rfl, fun hf => by simp at hf⟩
 
 theorem walkOk_alive (r : Roadmap S D) (p : List Nat) (h : walkOk r p = true) : ∀ v ∈ p, isAlive r v = true := by
   induction p with
